@@ -290,9 +290,7 @@ func runC07(c *Ctx) {
 			if res.Len() != 2 || res.At(1).Type().String() != "error" {
 				continue
 			}
-			if IsNewHelper(f) {
-				continue // part of its caller: the value flow (incl. nil) is followed there
-			}
+			isHelper := IsNewHelper(f)
 			switch res.At(0).Type().Underlying().(type) {
 			case *types.Pointer, *types.Interface:
 			default:
@@ -309,6 +307,39 @@ func runC07(c *Ctx) {
 				}
 				if !mayNil {
 					continue
+				}
+				// `return nil, err` where err was tested and the function carried on with err == nil
+				// (a retry loop that gives up after a 5xx answer: the last error is nil)
+				allNil := true
+				for _, x := range Roots(v0) {
+					if !IsNilConst(x) {
+						allNil = false
+					}
+				}
+				if allNil {
+					for _, x := range Roots(v1) {
+						for _, u := range Refs(x) {
+							bo, ok := u.(*ssa.BinOp)
+							if !ok || !(IsNilConst(bo.X) || IsNilConst(bo.Y)) {
+								continue
+							}
+							for _, uu := range Refs(bo) {
+								ifi, ok := uu.(*ssa.If)
+								if !ok {
+									continue
+								}
+								if _, nonNilSucc, ok := ErrNilTest(ifi); ok {
+									nilBlk := ifi.Block().Succs[1-nonNilSucc]
+									if nilBlk != r.Block() && !nilBlk.Dominates(r.Block()) && blockReaches(nilBlk, r.Block()) && len(Roots(v1)) > 1 {
+										bad = "the return at " + p.Pos(r.Pos()) + " yields a nil result with an error variable that is nil on the path through " + p.Pos(ifi.Pos()) + " (tested, found nil, carried on, e.g. to give up after a 5xx answer)"
+									}
+								}
+							}
+						}
+					}
+				}
+				if isHelper {
+					continue // the definite (nil, nil) pairs of a helper are followed in its caller
 				}
 				defNil := true
 				for _, x := range Roots(v1) {
@@ -361,6 +392,13 @@ func runC07(c *Ctx) {
 	c.Rule("C07.C", "channel typestate in the websocket shim: no close of a multi-sender channel, sends select on done (= C12.C/B)", 3)
 	ruleShimChannels(c, p, "C07.C", "C07.C")
 	ruleNoCloseUnderOtherSenders(c, p, "C07.C", "agent/utils", "agent/websockets", "agent")
+	// malformed shim input does not take a healthy session away from later calls (= C12.U)
+	if se := resolveShimEndpoints(c, p, "C07.C"); se != nil {
+		ruleForgetSites(c, p, "C07.C", se)
+	}
+	// the 502 is written by the reverse proxy's own error path: no field of the proxy other
+	// than the reasoned ones is set (a custom ErrorLog/ErrorHandler can block or skip it) (= C14.P)
+	ruleReverseProxyFields(c, p, "C07.G")
 }
 
 // writesStatus: i writes HTTP status `code` (WriteHeader(code) or http.Error(..., code)).
@@ -525,4 +563,23 @@ func perRequestType(p *Prog, typ string, reach map[*ssa.Function][]*ssa.Function
 	}
 	sort.Strings(sites)
 	return "allocated only in per-request code (" + strings.Join(sites, ", ") + "): one instance per request; its cross-goroutine hand-off is the subject of the ownership rule P"
+}
+
+// blockReaches: a CFG path leads from a to b.
+func blockReaches(a, b *ssa.BasicBlock) bool {
+	seen := map[*ssa.BasicBlock]bool{}
+	q := []*ssa.BasicBlock{a}
+	for len(q) > 0 {
+		x := q[0]
+		q = q[1:]
+		if x == b {
+			return true
+		}
+		if seen[x] {
+			continue
+		}
+		seen[x] = true
+		q = append(q, x.Succs...)
+	}
+	return false
 }
